@@ -299,3 +299,6 @@ func stack() string {
 	}
 	return strings.Join(keep, " | ")
 }
+
+// VirtualNow is the engine's discrete-event clock in nanoseconds (0 natively).
+func VirtualNow() int { return 0 }
